@@ -2,7 +2,11 @@ package main
 
 import (
 	"encoding/json"
+	"os"
+	"os/exec"
 	"path/filepath"
+	"sort"
+	"strings"
 )
 
 func jsonUnmarshal(b []byte, v interface{}) error { return json.Unmarshal(b, v) }
@@ -84,4 +88,136 @@ func indexOf(s, sub string) int {
 		}
 	}
 	return -1
+}
+
+// ---------- thorough tier: self-test of the checker on one-instance mutants, seeded regressions and benign edits ----------
+
+type selfEntry struct {
+	ID       string   `json:"id"`
+	Kind     string   `json:"kind"`
+	MustFire []string `json:"must_fire"`
+	patch    string
+}
+
+type selfResult struct {
+	ID      string   `json:"id"`
+	Kind    string   `json:"kind"`
+	Expect  string   `json:"expect"`
+	Fired   bool     `json:"fired"`
+	Rules   []string `json:"rules,omitempty"`
+	Outcome string   `json:"outcome"`
+}
+
+func loadSelfCatalogue(verif string) []selfEntry {
+	var out []selfEntry
+	if b, err := os.ReadFile(filepath.Join(verif, "checker", "selftest", "catalog.json")); err == nil {
+		var cat []selfEntry
+		if json.Unmarshal(b, &cat) == nil {
+			for _, e := range cat {
+				e.patch = filepath.Join(verif, "checker", "selftest", e.ID+".patch")
+				out = append(out, e)
+			}
+		}
+	}
+	if b, err := os.ReadFile(filepath.Join(verif, "seeded", "expect.json")); err == nil {
+		exp := map[string][]string{}
+		if json.Unmarshal(b, &exp) == nil {
+			var ids []string
+			for id := range exp {
+				ids = append(ids, id)
+			}
+			sort.Strings(ids)
+			for _, id := range ids {
+				out = append(out, selfEntry{ID: "seed:" + id, Kind: "mutant", MustFire: exp[id], patch: filepath.Join(verif, "seeded", id, "patch.diff")})
+			}
+		}
+	}
+	return out
+}
+
+// runSelfTest applies every catalogue entry that concerns spec to a scratch copy of the repository and runs
+// spec's rules on it. Results go into the evidence; they never change the verdict on /repo.
+func runSelfTest(spec *PropSpec, root, verif string) []selfResult {
+	var res []selfResult
+	for _, e := range loadSelfCatalogue(verif) {
+		concerns := e.Kind == "benign"
+		for _, p := range e.MustFire {
+			if p == spec.ID {
+				concerns = true
+			}
+		}
+		if !concerns {
+			continue
+		}
+		sr := selfResult{ID: e.ID, Kind: e.Kind, Expect: "silent"}
+		if e.Kind == "mutant" {
+			sr.Expect = "reported"
+		}
+		tmp, err := os.MkdirTemp("", "fgself-")
+		if err != nil {
+			sr.Outcome = "skipped: " + err.Error()
+			res = append(res, sr)
+			continue
+		}
+		func() {
+			defer os.RemoveAll(tmp)
+			dst := filepath.Join(tmp, "repo")
+			if out, err := exec.Command("cp", "-a", root, dst).CombinedOutput(); err != nil {
+				sr.Outcome = "skipped: copy failed: " + string(out)
+				return
+			}
+			os.RemoveAll(filepath.Join(dst, ".git"))
+			cmd := exec.Command("git", "apply", "--whitespace=nowarn", e.patch)
+			cmd.Dir = dst
+			if out, err := cmd.CombinedOutput(); err != nil {
+				sr.Outcome = "skipped: patch no longer applies (" + strings.TrimSpace(string(out)) + ")"
+				return
+			}
+			sub := NewReport(spec.ID, "selftest", 0)
+			for _, cfg := range []Config{cfgC0, cfgC1} {
+				p, err := Load(dst, cfg)
+				sub.cur = cfg.Name
+				if err != nil {
+					sub.Undecided("LOAD", "load", "-", "loads", err.Error())
+					continue
+				}
+				for _, ru := range spec.Rules {
+					if ru.Configs == "asm" && !cfg.Asm {
+						continue
+					}
+					if ru.Configs == "first" && cfg.Name != cfgC0.Name {
+						continue
+					}
+					runRule(ru, p, sub)
+				}
+			}
+			known, _ := loadKnown(filepath.Join(verif, "known_findings.json"))
+			kk := map[string]bool{}
+			for _, k := range known {
+				if k.Status == "known" {
+					kk[k.Key] = true
+				}
+			}
+			rules := map[string]bool{}
+			for _, o := range sub.Obls {
+				if (o.Status == "violation" && !kk[o.Key]) || o.Status == "undecided" {
+					sr.Fired = true
+					rules[o.Rule] = true
+				}
+			}
+			sr.Rules = sortedKeys(rules)
+			switch {
+			case e.Kind == "mutant" && sr.Fired:
+				sr.Outcome = "ok: reported"
+			case e.Kind == "mutant":
+				sr.Outcome = "MISS: the change was not reported"
+			case sr.Fired:
+				sr.Outcome = "FALSE-ALARM: a behaviour-preserving edit was reported"
+			default:
+				sr.Outcome = "ok: silent"
+			}
+		}()
+		res = append(res, sr)
+	}
+	return res
 }
